@@ -341,10 +341,17 @@ def core_fault(label):
         or (label.startswith('len') and label[-2:] in ('-1', '+1'))
 
 
+def mini_fault(label):
+    """two faults per message, for streams in which several messages are damaged and more follow"""
+    return label in ('stop0', 'undef-elem@0')
+
+
 def stream_body(tup, menu='full'):
     P = stream_pool()
     if menu == 'core':
         P = [(n, b, [f for f in fs if core_fault(f[0])]) for n, b, fs in P]
+    elif menu == 'mini':
+        P = [(n, b, [f for f in fs if mini_fault(f[0])]) for n, b, fs in P]
 
     def body(ctx):
         sep = SEPS[ctx.pick('sep', len(SEPS), 'S')] if len(tup) == 2 else b''
@@ -555,12 +562,15 @@ def main(tier, seed):
     rep.add_part('trailing', p, bounds={'messages': len(tmsgs), 'trailers': 6})
     idx = range(len(stream_pool()))
     # full menu with one damaged message at every position; reduced ("core") menu where several are damaged at once
-    plan = ([(1, 1, 'full'), (2, 1, 'full'), (2, 2, 'core'), (3, 1, 'core')] if tier == 'quick' else
-            [(1, 1, 'full'), (2, 1, 'full'), (3, 1, 'full'), (2, 2, 'full'), (3, 2, 'core'), (4, 1, 'core')])
+    # the 'mini' menu (stop signature, undefined element) keeps streams affordable in which two messages of different
+    # lengths are damaged and undamaged ones follow (a skip distance taken from the wrong message loses them)
+    plan = ([(1, 1, 'full'), (2, 1, 'full'), (2, 2, 'core'), (3, 1, 'core'), (3, 2, 'mini')] if tier == 'quick' else
+            [(1, 1, 'full'), (2, 1, 'full'), (3, 1, 'full'), (2, 2, 'full'), (3, 2, 'core'), (4, 1, 'core'), (4, 2, 'mini')])
     for j, bound, menu in plan:
         tuples = list(itertools.product(idx, repeat=j))
         p = merge_all(run_shards(run_streams, [(s, bound, menu) for s in split(tuples, 64)]))
-        nf = [len([f for f in x[2] if menu == 'full' or core_fault(f[0])]) for x in stream_pool()]
+        nf = [len([f for f in x[2] if menu == 'full' or (menu == 'core' and core_fault(f[0])) or (menu == 'mini' and mini_fault(f[0]))])
+              for x in stream_pool()]
         rep.add_part('streams-j%d-d%d-%s' % (j, bound, menu), p,
                      bounds={'messages_in_stream': j, 'max_damaged': bound, 'pool': len(idx), 'menu': menu,
                              'faults_per_message': nf})
